@@ -143,11 +143,11 @@ def gen_conc(rng, tier):
 
 
 def gen(rng, tier, open_keys):
-    n = 3000 if tier == "quick" else 150000
+    n = 6000 if tier == "quick" else 200000
     out = []
     for _ in range(n):
         out.append(gen_adt(rng, tier) if rng.random() < 0.06 else gen_seq(rng, tier))
-    for _ in range(700 if tier == "quick" else 12000):
+    for _ in range(1200 if tier == "quick" else 20000):
         out.append(gen_conc(rng, tier))
     return out
 
